@@ -430,10 +430,9 @@ func (p *parser) primary() (Expr, error) {
 			if err != nil {
 				return nil, err
 			}
-			if !p.isID("in") {
-				return nil, fmt.Errorf("%s: let: expected 'in', found %q", p.pos, p.peek().text)
+			if err := p.expect("::"); err != nil {
+				return nil, err
 			}
-			p.next()
 			b, err := p.expr()
 			if err != nil {
 				return nil, err
@@ -565,7 +564,7 @@ var clauseKeywords = map[string]bool{
 	"property": true, "trusted": true, "pure": true, "effect": true, "inline": true,
 	"requires": true, "ensures": true, "modifies": true,
 	"loop": true, "invariant": true, "decreases": true, "unordered": true,
-	"spec": true, "axiom": true, "lemma": true, "sort": true, "witness": true,
+	"spec": true, "axiom": true, "lemma": true, "sort": true, "witness": true, "uses": true,
 }
 
 type logical struct {
@@ -648,6 +647,11 @@ func ParseLines(pkg, path string, lines []Line) (*File, error) {
 			if cur.TrustWhy == "" {
 				return nil, fmt.Errorf("%s: trusted needs a reason", l.pos)
 			}
+		case "uses":
+			if curLemma == nil {
+				return nil, fmt.Errorf("%s: uses outside lemma", l.pos)
+			}
+			curLemma.Uses = append(curLemma.Uses, strings.Fields(rest)...)
 		case "witness":
 			if cur != nil {
 				cur.Witnesses = append(cur.Witnesses, rest)
